@@ -70,6 +70,7 @@ class FakeLink:
         self.counters: Dict[str, int] = {}
         self.stopped = False
         self.bell_override: Optional[Callable[[dict, int], LinkBell]] = None
+        self.goodness_override: Optional[Callable[[dict, int], Optional[int]]] = None   # the reported generation duration
         self.validate_all = False
         self.validate = True
 
@@ -107,13 +108,13 @@ class FakeLink:
                     tp=request.type, number=request.number, request=request)
 
     def submit(self, creator: int, receiver: int, purpose_c: int, purpose_r: int, tp: RequestType,
-               number: int, request: Any = None) -> int:
+               number: int, request: Any = None, tag: Any = None) -> int:
         cid = self.next_create_id.get(creator, 0)
         self.next_create_id[creator] = cid + 1
         key = (creator, receiver, purpose_c)
         job = {"creator": creator, "receiver": receiver, "purpose_c": purpose_c, "purpose_r": purpose_r,
                "type": tp, "number": number, "create_id": cid if not self.distinct_fields else self.uniq(),
-               "request": request}
+               "request": request, "tag": tag}
         q = self.gen_queues.get(key)
         if q is None:
             q = []
@@ -144,6 +145,10 @@ class FakeLink:
         seq = self.next_seq if not self.distinct_fields else self.uniq()
         self.next_seq += 1
         good = self.uniq() if self.distinct_fields else ch.draw(8, "goodness")
+        if self.goodness_override is not None:
+            g2 = self.goodness_override(job, k)
+            if g2 is not None:
+                good = g2
         tgood = self.uniq() if self.distinct_fields else self.sched.now
         rec = {"job": job, "k": k, "bell": bell, "seq": seq}
         self.bump(f"bell:{bell.name}")
